@@ -423,6 +423,30 @@ def run(ctx):
             meta.append(m)
         check_svg(ctx, open(fp).read(), events, geom, case)
         os.unlink(fp)
+        # the same LogPass object plotted again over a detail window (what a viewer does): the second plot is a plot like any other -
+        # only the frames of ITS interval, every point inside ITS view box
+        if not use_xml and n >= 20 and pi % 3 == 0:
+            a_, b_ = n // 3, n // 3 + 4
+            fp2 = os.path.join(wd, 'p%d_detail.svg' % pi)
+            case2 = dict(case, detail=[xs[a_], xs[b_]])
+            with plottrace.record_plot() as events2:
+                try:
+                    k_ = XUNITS[runits] / XUNITS[xunits]
+                    plotter.plotLogPassLIS(f, lp, EngVal.EngVal(xs[a_] * k_, runits), EngVal.EngVal(xs[b_] * k_, runits), film_id, fp2, frameStep=1, title='verif')
+                except Exception as e:
+                    ctx.fail('second plotLogPassLIS of the same log pass over a detail window raised %s: %s; %s' % (type(e).__name__, e, json.dumps(case2)[:400]), case2,
+                             sig=dict(kind='plot-raises', error=type(e).__name__, where='detail'))
+                    continue
+            if os.path.exists(fp2):
+                src2 = {o.decode().strip(): (xs[a_:b_ + 1], c[a_:b_ + 1], -999.25) for o, c in zip(outs, cols)}
+                trs2, geom2 = curve_traces(ctx, events2, src2, case2)
+                for tr, m in trs2:
+                    traces.append(tr)
+                    meta.append(m)
+                check_svg(ctx, open(fp2).read(), events2, geom2, case2)
+                os.unlink(fp2)
+            elif any(e['op'] == 'wrap' for e in events2):
+                ctx.fail('no SVG file written for the detail window', case2, sig=dict(kind='no-svg'))
     # LAS input
     rows = '\n'.join('%.1f %.3f %.3f' % (1000 + i * 0.5, 50 + 10 * (i % 7), 8.5 + 0.1 * i) for i in range(30))
     text = ('~Version Information Section\nVERS. 2.0 : CWLS\nWRAP. NO : one line\n~Well Information Section\nSTRT.FT 1000.0 : start\nSTOP.FT 1014.5 : stop\n'
